@@ -261,21 +261,52 @@ def check(F, rep):
     puts = find_calls(dw, "bytes::buf::buf_mut::BufMut::put")
     ok = len(puts) == 1 and ("contents",) in {x[2][-1:] for x in copy_sources(dw, op_base(puts[0][1]["args"][1])) if x[0] == "arg"} and dw.postdominates(puts[0][0], 0)
     rep.ob("batch", ok, site(dw), "Datagrams::write_to ends with the contents", DG + "|write-contents")
-    # encoded_len: 1 + map_or(0, |_| 2) + contents.len()
-    mo = find_calls(de, "core::option::Option::map_or")
+    # encoded_len as an affine value per path: 1 + (2 iff segment_size Some) + contents.len()
+    from .. import booltab
+
+    def sym(t):
+        if call_matches(t, r"^bytes::bytes::Bytes::len$") and {x[2][-1:] for x in copy_sources(de, op_base(t["args"][0])) if x[0] == "arg" and x[1] == 1} == {("contents",)}:
+            return "contents.len"
+        return None
+
+    def const_closure(o):
+        l = op_base(o)
+        if l is None:
+            return None
+        m = re.search(r"closure@[^:]+:(\d+):(\d+)", str(de.locals[l]))
+        for g in F.tree(de):
+            if g is not de and m and g.line == int(m.group(1)):
+                vals = {int_const(rv["o"]) for b_, i_, rv in returns_of(g) if i_ is not None and rv["k"] == "use"}
+                if len(vals) == 1 and None not in vals and not list(g.calls()):
+                    return next(iter(vals))
+        return None
+
+    def seg_atom(a, some):
+        """value of a test of self.segment_size"""
+        if a.kind == "call" and a.name in ("Option::is_some", "core::option::Option::is_some", "core::option::Option::is_none"):
+            x = copy_sources(de, op_base(a.args[0]))
+            if x and all(y[0] == "arg" and y[1] == 1 and y[2][-1:] == ("segment_size",) for y in x):
+                return some != a.name.endswith("is_none")
+        if a.kind == "switch":
+            l = op_local(a.args[0])
+            for st in de.blocks[a.bb]["s"]:
+                if st["k"] == "a" and st["lhs"]["l"] == l and st["rv"]["k"] == "discr":
+                    names = [e[2] for e in resolve_place(de, st["rv"]["p"]).get("p", []) if e[0] == "f"]
+                    if names[-1:] == ["segment_size"]:
+                        vals = [int(z) for z, _ in de.blocks[a.bb]["t"]["targets"]]
+                        w = 1 if some else 0
+                        return w if w in vals else "otherwise"
+        raise booltab.Unsupported("test at bb%d is not on self.segment_size" % a.bb)
     ok = False
-    if len(mo) == 1:
-        none_v = int_const(mo[0][1]["args"][1])
-        cl = [g for g in F.tree(de) if g is not de]
-        some_v = None
-        for g in cl:
-            for b, i, rv in returns_of(g):
-                if i is not None and rv["k"] == "use":
-                    some_v = int_const(rv["o"])
-        consts = [int_const(o) for b, i, s in de.stmts() if s["k"] == "a" and s["rv"]["k"] == "bin" and s["rv"]["op"] in ("Add", "AddWithOverflow") for o in (s["rv"]["a"], s["rv"]["b"])]
-        lens = find_calls(de, "bytes::bytes::Bytes::len")
-        ok = none_v == 0 and some_v == 2 and 1 in consts and len(lens) == 1
-    rep.ob("batch", ok, site(de), "Datagrams::encoded_len = 1 + (2 iff segment_size Some) + contents.len()", DG + "|len")
+    why = ""
+    try:
+        lp = booltab.extract_lin(de, sym, const_closure)
+        got = {some: booltab.evaluate_lin(lp, lambda a, some=some: seg_atom(a, some)) for some in (False, True)}
+        ok = got[False] == {1: 1, "contents.len": 1} and got[True] == {1: 3, "contents.len": 1}
+        why = "without segment size %s, with %s" % (got[False], got[True])
+    except booltab.Unsupported as e:
+        why = "not extractable (fails closed): %s" % e
+    rep.ob("batch", ok, site(de), "Datagrams::encoded_len = 1 + (2 iff segment_size Some) + contents.len(): %s" % why, DG + "|len")
     # from_bytes: reads u16 iff is_batch
     g16 = find_calls(dfb, regex=r"Buf::get_u16$")
     g8 = find_calls(dfb, regex=r"Buf::get_u8$")
